@@ -598,7 +598,7 @@ theorem chord_v2_exact_set_partial (s : ChV2) (layer : Nat) (ps : List Nat) (p1 
 their index (before the repair a release at `(1, n)` released the participant with key code `n`) -/
 theorem chord_v2_cooldown_ignores_virtual_rows (s : ChV2) (dq : List Queued) (layer : Nat)
     (hcool : s.ticksToIgnore > 0) (hq : ∀ qd ∈ s.queue, qd.ev.coord.1 ≠ 0) :
-    drainInputs s dq layer = .ok ({ s with queue := [], active := s.active }, drainExtend dq s.queue) := by
+    drainInputs s dq layer = .ok ({ s with queue := [], active := s.active, ticksUntilChange := 0 }, drainExtend dq s.queue) := by
   have hnil : realInputs s.queue = [] := by
     unfold realInputs
     rw [List.filter_eq_nil_iff]
